@@ -115,6 +115,17 @@ func checkShapingOutput(c *sc.Case, out *shaping.Output) (summary, error) {
 		if i > 0 {
 			p := gs[i-1].ClusterIndex
 			if !backward && g.ClusterIndex < p || backward && g.ClusterIndex > p {
+				if ev.Known(findingLevel0Upstream) {
+					cl := make([]int, len(gs))
+					for k := range gs {
+						cl[k] = gs[k].ClusterIndex
+					}
+					if upstreamNonMonotoneSignature(c, cl, backward) {
+						// the rune/glyph counts are derived from monotone clusters: nothing further to judge
+						s.excluded = findingLevel0Upstream
+						return s, nil
+					}
+				}
 				return s, fmt.Errorf("glyph %d: cluster %d after %d is not monotone in the reading direction (backward=%v)", i, g.ClusterIndex, p, backward)
 			}
 		}
@@ -186,9 +197,15 @@ func checkHarfbuzzResult(c *sc.Case, face *font.Face, res *sc.HBResult) (summary
 						s.excluded = findingLevel1Reverse
 						continue
 					}
-					if ev.Known(findingLevel1Upstream) && level1UpstreamSignature(c, res) {
-						s.excluded = findingLevel1Upstream
-						continue
+					if id := upstreamFinding(c.ClusterLevel); ev.Known(id) {
+						cl := make([]int, len(res.Info))
+						for k := range res.Info {
+							cl[k] = res.Info[k].Cluster
+						}
+						if upstreamNonMonotoneSignature(c, cl, backward) {
+							s.excluded = id
+							continue
+						}
 					}
 					return s, fmt.Errorf("glyph %d: cluster %d after %d is not monotone (cluster level %d, backward=%v)", i, g.Cluster, p, c.ClusterLevel, backward)
 				}
@@ -253,6 +270,7 @@ const (
 	findingGSUBLengthBudget   = "C01-gsub-multiple-length-budget"
 	findingReverseLookupIdx   = "C01-reverse-lookup-cursor"
 	findingLevel1Upstream     = "C01-level1-upstream-non-monotone"
+	findingLevel0Upstream     = "C01-level0-upstream-non-monotone"
 )
 
 // opsBudget is the library's operation budget max(1024·n, 16384): the only limit on AAT insertions.
@@ -390,24 +408,63 @@ func graphemeStarts(text []rune, start, end int) map[int]int {
 	return out
 }
 
-// level1UpstreamSignature tells whether a non-monotone result at cluster level MonotoneCharacters is
-// exactly what the reference implementation (libharfbuzz) returns for the same call: the port is
-// then faithful to an upstream deviation from the documented level (seen after Indic/USE reordering
-// of broken clusters), which is recorded as a finding without repair.
-func level1UpstreamSignature(c *sc.Case, res *sc.HBResult) bool {
-	if harfbuzz.ClusterLevel(c.ClusterLevel) != harfbuzz.MonotoneCharacters {
+// nonMonotoneSteps lists the adjacent cluster pairs that break monotonicity.
+func nonMonotoneSteps(clusters []int, backward bool) [][2]int {
+	var out [][2]int
+	for i := 1; i < len(clusters); i++ {
+		p, g := clusters[i-1], clusters[i]
+		if !backward && g < p || backward && g > p {
+			out = append(out, [2]int{p, g})
+		}
+	}
+	return out
+}
+
+// upstreamNonMonotoneSignature tells whether a non-monotone result at a monotone cluster level is
+// what the reference implementation (libharfbuzz) returns for the same call: the same steps
+// (previous cluster, cluster) break monotonicity in both. The port is then faithful to an upstream
+// deviation from the documented level (seen after Indic/USE reordering of broken clusters), which is
+// recorded as a finding without repair. Only the offending steps are compared, so that unrelated
+// port/reference differences elsewhere in a long run (a hidden default ignorable, say — property
+// C05's business) do not disable the matcher. A shaping.Shape call is given to the reference as the
+// harfbuzz-level call it makes (level 0, no flags, global features).
+func upstreamNonMonotoneSignature(c *sc.Case, clusters []int, backward bool) bool {
+	h := *c
+	if c.API != sc.APIHarfbuzz {
+		if !c.InRange() {
+			return false
+		}
+		h.API = sc.APIHarfbuzz
+		h.ClusterLevel, h.Flags, h.Invisible, h.NotFound, h.GuessProps, h.UpemScale, h.Ptem = 0, 0, 0, 0, false, false, 0
+		if h.Orient == 2 {
+			h.Dir -= 2 // sideways runs are shaped horizontally
+		}
+		h.Orient = 0
+	}
+	if harfbuzz.ClusterLevel(h.ClusterLevel) == harfbuzz.Characters {
 		return false
 	}
-	ref, ok := referenceClusters(c)
-	if !ok || len(ref) != len(res.Info) {
+	ref, ok := referenceClusters(&h)
+	if !ok {
 		return false
 	}
-	for i, g := range res.Info {
-		if ref[i] != g.Cluster {
+	a, b := nonMonotoneSteps(clusters, backward), nonMonotoneSteps(ref, backward)
+	if len(a) == 0 || len(a) != len(b) {
+		return false
+	}
+	for i := range a {
+		if a[i] != b[i] {
 			return false
 		}
 	}
 	return true
+}
+
+func upstreamFinding(level uint8) string {
+	if harfbuzz.ClusterLevel(level) == harfbuzz.MonotoneCharacters {
+		return findingLevel1Upstream
+	}
+	return findingLevel0Upstream
 }
 
 // level1ReverseSignature tells whether a monotonicity failure at cluster level MonotoneCharacters
